@@ -94,6 +94,14 @@ def gen_case(rng, tier, idx):
         ch = changes[-1]
         ch["value"] = {"volatility": rng.choice([0.0, 0.005, 0.02]), "drift": rng.choice([0.0, 0.001, -0.001]),
                        "shock": rng.choice([0.8, 1.1, 1.5])}[ch["what"]]
+        if ch["what"] != "shock" and rng.random() < 0.4:
+            # the setters' effective time defaults to 0: the generator's own path is rewritten from the start,
+            # what the markets have recorded must not be
+            ch["default_time"] = True
+            if rng.random() < 0.7:
+                later = rng.randrange(ch["time"], total)
+                changes.append({"time": later, "at_market": "S0", "market": ch["market"], "what": "shock",
+                                "value": rng.choice([0.8, 1.2])})
     cfg["PROBE"] = {"class": "ProbeEvent", "fundChanges": changes, "hooks": [
         {"type": "market", "before": True, "time": None}, {"type": "market", "before": False, "time": None},
         {"type": "session", "before": True, "time": None}, {"type": "session", "before": False, "time": None},
